@@ -529,6 +529,14 @@ func (e *Env) loop(pos token.Pos, cond func() *Term, body func(), post func(), a
 		c := e.bodyCtx()
 		e.assert(c.boolTerm(cl.Expr), lname+".entry", fmt.Sprintf("inv%d", cl.Ord), cl.Tags, cl.Text, fmt.Sprintf("%s:%d", e.fc.File, cl.Line))
 	}
+	// automatic invariant: ownership of byte storage (see callContract)
+	var ownInv []*Term
+	if e.ownAuto != nil && e.inline == 0 {
+		ownInv = e.ownAuto()
+		for i, t := range ownInv {
+			e.assert(t, lname+".entry", fmt.Sprintf("own%d", i+1), nil, "automatic invariant: byte-slice fields stay on their old array, a fresh one or nil", e.w.pos(pos))
+		}
+	}
 	pre := e.cur
 	head := e.newBlock(lname + "-head")
 	pre.Succ = append(pre.Succ, head)
@@ -567,6 +575,11 @@ func (e *Env) loop(pos token.Pos, cond func() *Term, body func(), post func(), a
 	}
 	if auto != nil {
 		e.assert(auto(), lname+".preserve", "auto", nil, "automatic range-loop invariant", e.w.pos(pos))
+	}
+	if e.ownAuto != nil && e.inline == 0 {
+		for i, t := range e.ownAuto() {
+			e.assert(t, lname+".preserve", fmt.Sprintf("own%d", i+1), nil, "automatic invariant: byte-slice fields stay on their old array, a fresh one or nil", e.w.pos(pos))
+		}
 	}
 	// back edge is cut here
 	loopAssigned := e.assigned
@@ -629,6 +642,11 @@ func (e *Env) loop(pos token.Pos, cond func() *Term, body func(), post func(), a
 	}
 	if auto != nil {
 		e.assume(auto())
+	}
+	if e.ownAuto != nil && e.inline == 0 {
+		for _, t := range e.ownAuto() {
+			e.assume(t)
+		}
 	}
 	e.cur = saveCur
 	_ = saveCur
